@@ -152,7 +152,8 @@ func (s rdNumber[T]) Sum() (sum T) {
 	s.txn.initialize()
 	s.txn.rangeRead(func(chunk commit.Chunk, index bitmap.Bitmap) {
 		if int(chunk) < len(s.reader.chunks) {
-			sum += bitmap.Sum(s.reader.chunks[chunk].data, index)
+			fill, data := s.reader.chunkAt(chunk)
+			sum += bitmap.Sum(data, present(index, fill))
 		}
 	})
 	return sum
@@ -164,8 +165,10 @@ func (s rdNumber[T]) Avg() float64 {
 	s.txn.initialize()
 	s.txn.rangeRead(func(chunk commit.Chunk, index bitmap.Bitmap) {
 		if int(chunk) < len(s.reader.chunks) {
-			sum += bitmap.Sum(s.reader.chunks[chunk].data, index)
-			ct += index.Count()
+			fill, data := s.reader.chunkAt(chunk)
+			selected := present(index, fill)
+			sum += bitmap.Sum(data, selected)
+			ct += selected.Count()
 		}
 	})
 	return float64(sum) / float64(ct)
@@ -176,7 +179,7 @@ func (s rdNumber[T]) Min() (min T, ok bool) {
 	s.txn.initialize()
 	s.txn.rangeRead(func(chunk commit.Chunk, index bitmap.Bitmap) {
 		if int(chunk) < len(s.reader.chunks) {
-			if v, hit := bitmap.Min(s.reader.chunks[chunk].data, index); hit && (v < min || !ok) {
+			if v, hit := bitmap.Min(s.reader.chunks[chunk].data, present(index, s.reader.chunks[chunk].fill)); hit && (v < min || !ok) {
 				min = v
 				ok = true
 			}
@@ -190,13 +193,20 @@ func (s rdNumber[T]) Max() (max T, ok bool) {
 	s.txn.initialize()
 	s.txn.rangeRead(func(chunk commit.Chunk, index bitmap.Bitmap) {
 		if int(chunk) < len(s.reader.chunks) {
-			if v, hit := bitmap.Max(s.reader.chunks[chunk].data, index); hit && (v > max || !ok) {
+			if v, hit := bitmap.Max(s.reader.chunks[chunk].data, present(index, s.reader.chunks[chunk].fill)); hit && (v > max || !ok) {
 				max = v
 				ok = true
 			}
 		}
 	})
 	return
+}
+
+// present narrows a selection down to the rows which hold a value, leaving the selection intact
+func present(index, fill bitmap.Bitmap) bitmap.Bitmap {
+	selected := index.Clone(nil)
+	selected.And(fill)
+	return selected
 }
 
 // readNumberOf creates a new numeric reader
